@@ -125,7 +125,7 @@ func (c *context) SendMsg(m *protocol.Message) error {
 		sock:   s,
 	}
 
-	m.MakeUnique()
+	m = m.MakeUnique()
 	m.Header = make([]byte, 4)
 	binary.BigEndian.PutUint32(m.Header, newsurv.id)
 
